@@ -273,7 +273,9 @@ func execBSCmp(in In, em *Emitter) {
 		lens := make([]int64, len(items))
 		for i, x := range items {
 			it := toList(x)
-			enc[i] = bitstr.New(string(toBytes(it[0])), int32(toI(it[1])), int32(toI(it[2])))
+			// an encoded bit string is a value: the caller may keep it anywhere, e.g. inside a larger buffer (a slice
+			// with capacity to spare, other data behind it)
+			enc[i] = roomy(bitstr.New(string(toBytes(it[0])), int32(toI(it[1])), int32(toI(it[2]))), i)
 			lens[i] = num(int64(bitstr.Len(enc[i])))
 		}
 		cmp := make([]int64, len(pairs))
@@ -297,6 +299,20 @@ func execBSCmp(in In, em *Emitter) {
 	em.Calls(2*len(items) + len(pairs))
 }
 
+// roomy copies a byte slice into a larger array: spare capacity holding garbage behind it (every other time none).
+func roomy(b []byte, k int) []byte {
+	if k%3 == 2 {
+		return b
+	}
+	spare := 1 + 9*(k%2)
+	full := make([]byte, len(b)+spare)
+	copy(full, b)
+	for i := len(b); i < len(full); i++ {
+		full[i] = byte(0xff - 0x5a*(k%2))
+	}
+	return full[:len(b)]
+}
+
 // Two StrCmpUpto calls inlined into one function, the first with an empty string: a call pattern
 // under which a slice header built from a bare string header reads a garbage capacity.
 func strCmpUptoAfterEmpty(empty, a string, b []byte) int {
@@ -310,7 +326,7 @@ func execBSUpto(in In, em *Emitter) {
 	o := J{}
 	var none []byte
 	abn := guard(func() {
-		b := bitstr.New(string(toBytes(it[0])), int32(toI(it[1])), int32(toI(it[2])))
+		b := roomy(bitstr.New(string(toBytes(it[0])), int32(toI(it[1])), int32(toI(it[2]))), len(as))
 		cu := make([]int64, len(as))
 		scu := make([]int64, len(as))
 		scu2 := make([]int64, len(as))
